@@ -44,6 +44,11 @@ PROPS_PART = {
                    bound='40-octet buffer; QNAME a.b. and record owner c. as prior names, NS target d.e. as compressee inside RDATA; fixed shapes, all label octets symbolic',
                    tier='thorough', what='same contract with two prior names and compression inside RDATA; RDLENGTH matches the compressed RDATA')],
         cex={'writer_finish.finish_with_mac': [('writer', 'full_opt_ext_rcode_roundtrip')]},
+        native=[dict(bin='bnd_writer', when='quick',
+                     bound='operation sequences on a 400-octet buffer (P1-P3) / 16784-octet buffer (P4), x 3 compression modes, over 9 names (., ex., a.ex., A.EX., b.a.ex., B.A.ex., c., k.a.ex., d.ex.), 17 RDATA (A, NS, MX, SOA, CNAME, SRV, Chaosnet A, TXT, unknown type 65280), 5 RRsets of 2-3 records, hints used only as the API contract allows: P1 [question] + 1..2 records over 6 owners x 6 hints (None, Qname, MostRecentOwner, MostRecentNameInRdata, Explicit 0/1) x 11 RDATA, and + 3 records over 3 owners x 4 hints x 4 RDATA; P2 all sequences of <= 3 operations over a 32-operation menu (questions, records, RRsets, header setters, set_rcode, set_edns, set_extended_rcode 16/2048/4095/4096, set_tsig unsigned/BADTIME/HMAC-SHA256, update_time_signed, clear_rrs, set_limit, set_compression_mode, template round trip) and of 4 over 16 of them; P3 every sequence of <= 2 operations over 18 of them and of 3 over 7, re-run with EVERY limit 0..=final length (Writer::new limit, buffer size, set_limit before each later operation); P4 [question] + one filler record ending at offset 0x3fff-d, d in -2..=26, + all sequences of <= 3 of 10 record/RRset operations (names around and beyond the reach of a 14-bit pointer)',
+                     what='public API of the real Writer; the finished message is decoded by an independent RFC 1035 decoder and compared with a model: header values, questions, records per section (header counts), '
+                          'OPT (payload size, extended RCODE incl. >= 2048), TSIG record (last) are exactly those of the operations that returned Ok, in order; names exact in case-preserving/disabled mode, ASCII-case-insensitive in standard mode; '
+                          'message ends after the last record; length <= limit in effect; Err(Truncation) only when the uncompressed encoding does not fit; removing a failed operation from the sequence changes nothing (no trace); no panic')],
         unverified=['Writer::write_compressed_unhinted_name: contract assumed in Verus, checked only within the Kani bounds',
                     'templates (into_template, try_from_template*, try_from_template_impl), TryFrom<&mut [u8]> for Writer, '
                     'HintedName::from_hint_pointer_vec*, HintPointerVec::{new,get}: not extracted',
@@ -67,6 +72,10 @@ PROPS_PART = {
         verus=[dict(unit='writer_names', which='all'), dict(unit='writer_rr', which='all', fns=['add_rr']), dict(unit='writer_core', which='all', fns=['with_rollback', 'clear_rrs', 'try_push'])],
         kani=list(_BND_COMPRESS),
         cex={},
+        native=[dict(bin='bnd_writer_ptr', when='quick',
+                     bound='operation sequences on a 400-octet buffer (P1-P3) / 16784-octet buffer (P4), x 3 compression modes, over 9 names (., ex., a.ex., A.EX., b.a.ex., B.A.ex., c., k.a.ex., d.ex.), 17 RDATA (A, NS, MX, SOA, CNAME, SRV, Chaosnet A, TXT, unknown type 65280), 5 RRsets of 2-3 records, hints used only as the API contract allows: P1 [question] + 1..2 records over 6 owners x 6 hints (None, Qname, MostRecentOwner, MostRecentNameInRdata, Explicit 0/1) x 11 RDATA, and + 3 records over 3 owners x 4 hints x 4 RDATA; P2 all sequences of <= 3 operations over a 32-operation menu (questions, records, RRsets, header setters, set_rcode, set_edns, set_extended_rcode 16/2048/4095/4096, set_tsig unsigned/BADTIME/HMAC-SHA256, update_time_signed, clear_rrs, set_limit, set_compression_mode, template round trip) and of 4 over 16 of them; P3 every sequence of <= 2 operations over 18 of them and of 3 over 7, re-run with EVERY limit 0..=final length (Writer::new limit, buffer size, set_limit before each later operation); P4 [question] + one filler record ending at offset 0x3fff-d, d in -2..=26, + all sequences of <= 3 of 10 record/RRset operations (names around and beyond the reach of a 14-bit pointer)',
+                     what='same enumeration as bnd_writer; every name field of the finished message is walked: each compression pointer points strictly backwards to the first octet of a label of a name completed earlier '
+                          '(never into the header, never forward, never at a pointer); no pointer inside SRV / Chaosnet A / TSIG / unknown-type RDATA (unknown-type RDATA verbatim); none in names written while compression was disabled')],
         unverified=['"target is the first octet of a label of an earlier name" is a Verus invariant for the QNAME anchor only; the owner / '
                     'RDATA anchors are only proved to be in range and before the cursor (RDLENGTH back-patching, see report); covered for the '
                     'compression scan by bounded Kani, for explicit hints by the API precondition hint_ok',
